@@ -11,7 +11,7 @@ PROPS = {
         "level_note": "rayon_core::join (RayonJoin::join) is ASSUMED to meet the Join contract and to be data-race free; "
                       "interleavings are argued from frames + Rust aliasing rules, not explored; the C/C++ TBB half is not "
                       "applicable (C++), only the C seam's frame is checked under C07",
-        "units": {"quick": [v("tree"), v("tree", "A", join_order="rl"), v("hasher"), v("tree_lemmas"), v("stack_lemmas")],
+        "units": {"quick": [v("tree"), v("tree", "A", join_order="rl"), v("hasher"), v("spec_lemmas")],
                   "thorough": [v("hasher", "A", join_order="rl")]},
         "explanation": "update_rayon == update_with_join::<RayonJoin>; both are instances of the generic function proved once "
                        "for all J. Determinism under every schedule follows from: results are functions of the inputs "
